@@ -21,7 +21,9 @@ ID = "C05"
 RULE = ("Hypothesis draws (left/right ADC variant incl. mixed pairs, "
         "block/space from the two lowest classes, operator string "
         "(n_create, n_annihilate) in {0,1,2}^2, order <= 2 with cost caps, "
-        "subtract_gs, model size, seed, request kind "
+        "subtract_gs, ground state with/without first-order singles (then a "
+        "random singles component in the first-order wavefunction), model "
+        "size, seed, request kind "
         "expec_block_contribution | trans_moment_space). Oracle: explicit "
         "intermediate states and normalised perturbed ground state in "
         "determinant space (any particle-number sector): [lambda^n] sum_IJ "
@@ -38,10 +40,31 @@ ASSUMPTIONS = ["MP partitioning; D = 1/(nc! na!) sum d a+..a.. with the "
 _OBJ = {}
 
 
-def prop_obj(lv, rv):
-    key = (lv, rv)
+def make_pt(m, order, singles):
+    """perturbed ground state; with first-order singles: the first-order
+    wavefunction gets a random singles component (the derived properties are
+    polynomials in the symbolic amplitudes, every value is admissible)"""
+    pt = RSPT(Hamiltonian(m, "mp", canonical=True), order)
+    if singles:
+        no, N = m.no, m.N
+        vals = m.rand_array((no * (N - no),), "first_order_singles")
+        k = 0
+        psi1 = dict(pt.psi[1])
+        for i in range(no):
+            for a in range(no, N):
+                (det, sg), = pt.fk.apply_string(
+                    [('c', a), ('a', i)], {pt.fk.ref: 1}).items()
+                psi1[det] = int(vals[k]) % P
+                k += 1
+        pt.psi[1] = {d: v for d, v in psi1.items() if v}
+    pt.install_amplitudes()
+    return pt
+
+
+def prop_obj(lv, rv, singles=False):
+    key = (lv, rv, singles)
     if key not in _OBJ:
-        gs = GroundState(Operators("mp"))
+        gs = GroundState(Operators("mp"), first_order_singles=singles)
         l_isr = IntermediateStates(gs, lv)
         r_isr = l_isr if rv == lv else IntermediateStates(gs, rv)
         _OBJ[key] = Properties(l_isr, None if rv == lv else r_isr)
@@ -77,8 +100,11 @@ def st_case(draw, tier):
             if nc == na == 0:
                 nc = 1
         order = min(order, 2 if len(sp1) <= 2 else 1)
+    singles = draw(st.integers(0, 3)) == 0
+    if singles:
+        order = min(order, 1)
     return {"lv": lv, "rv": rv, "kind": kind, "sp1": sp1, "sp2": sp2,
-            "order": order, "nc": nc, "na": na,
+            "order": order, "nc": nc, "na": na, "singles": singles,
             "subtract_gs": draw(st.booleans()),
             "lr": draw(st.sampled_from(["left", "right"])),
             "adc": draw(st.integers(0, 2)),
@@ -99,14 +125,14 @@ def classes_upto(variant, sp):
 def run_case(case):
     r = R()
     lv, rv, kind = case["lv"], case["rv"], case["kind"]
-    prop = prop_obj(lv, rv)
+    singles = bool(case.get("singles"))
+    prop = prop_obj(lv, rv, singles)
     order, sub = case["order"], case["subtract_gs"]
     no, nv = case["size"]
     for attempt in range(4):
         try:
             m = Model(case["mseed"] + 1000 * attempt, no, nv)
-            pt = RSPT(Hamiltonian(m, "mp", canonical=True), max(order, 1))
-            pt.install_amplitudes()
+            pt = make_pt(m, max(order, 1), singles)
             break
         except ModelResample:
             r.resampled += 1
@@ -114,6 +140,8 @@ def run_case(case):
         raise ModelResample("no regular model")
     fk = pt.fk
     n = order
+    if singles:
+        r.cls("first_order_singles")
     if kind in ("tm_sum", "expec_sum"):
         return run_sums(case, r, prop, m, pt)
     if kind == "expec":
@@ -221,8 +249,7 @@ def run_sums(case, r, prop, m, pt):
         o_req = adc
     nmax = adc if o_req is None else o_req
     if pt.order < max(nmax, 1):
-        pt = RSPT(pt.h, max(nmax, 1))
-        pt.install_amplitudes()
+        pt = make_pt(m, max(nmax, 1), bool(case.get("singles")))
     if kind == "tm_sum":
         lr = case["lr"]
         variant = lv if lr == "left" else rv
